@@ -1,0 +1,38 @@
+//go:build verif
+
+package admission
+
+// Contracts for the verification framework in /verif (comment-only file, build tag `verif`).
+
+// Funcspec of the admission event handler installed by the operator: ghost copies of its results.
+// Assumed: a nil error comes with a non-nil response (see the operator's closure contract).
+//@ ghost lastResp *Response
+//@ ghost lastErr error
+//@ ghost lastEvent Event
+//@ trusted func WebhookHandler.Handler
+//@   modifies lastResp, lastErr, lastEvent
+//@   ensures lastResp == result0 && lastErr == result1 && lastEvent == event && (result1 == nil ==> result0 != nil)
+
+//@ pure webhook/admission.detectConfigurationAndWebhook
+
+// C14: the AdmissionResponse relays the hook's verdict: same allowed flag, message (as a 403
+// status when denied), warnings and patch (with patch type JSONPatch exactly when there is a
+// patch), echoing the request UID; any handler error gives an error (answered as a denial).
+//@ func (*WebhookHandler).handleReviewRequest
+//@   prop C14
+//@   requires request != nil
+//@   modifies lastResp, lastErr, lastEvent
+//@   ensures [no-handler]    h.Handler == nil ==> result1 != nil
+//@   ensures [fail-closed]   h.Handler != nil && lastErr != nil ==> result1 == lastErr && result0 == nil
+//@   ensures [uid]           result1 == nil ==> result0 != nil && result0.UID == request.UID
+//@   ensures [verdict]       result1 == nil ==> result0.Allowed == lastResp.Allowed && result0.Warnings == lastResp.Warnings && result0.Patch == lastResp.Patch
+//@   ensures [denial]        result1 == nil && !lastResp.Allowed ==> result0.Result != nil && result0.Result.Message == lastResp.Message && result0.Result.Code == 403
+//@   ensures [allowed-clean] result1 == nil && lastResp.Allowed ==> result0.Result == nil
+//@   ensures [patch-type]    result1 == nil ==> (len(lastResp.Patch) > 0) == (result0.PatchType != nil) && (result0.PatchType != nil ==> *result0.PatchType == v1.PatchTypeJSONPatch)
+//@   ensures [routing]       result1 == nil ==> lastEvent.Request == request && lastEvent.ConfigurationId == detectConfigurationAndWebhook(path) && lastEvent.WebhookId == second(detectConfigurationAndWebhook(path))
+
+// C14: an internal error is answered with allowed=false.
+//@ func errored
+//@   prop C14
+//@   requires err != nil
+//@   ensures [denied] result != nil && !result.Allowed && result.Result != nil && result.Result.Code == 500
